@@ -231,6 +231,11 @@ class ViewModule:
         if self.f("requires", 0.3):
             L.append("  %d [+1]  UInt  checked" % (off + 70))
             L.append("    [requires: this != 13 && this < 250]")
+        # a Bcd field whose [requires] arithmetic fits its C++ type only for decimal digits (99 * 20_000_000 < 2^31, but
+        # the value a non-decimal nibble converts to does not): the validator may only see values of an Ok() field
+        if self.f("bcd_requires", 0.4):
+            L.append("  %d [+1]  Bcd  bcd_checked" % (off + 71))
+            L.append("    [requires: this * 20_000_000 <= 1_900_000_000]")
         # Float fields (compared by value: +0 == -0, NaN != NaN); drawn last so that the random stream of the
         # other features is unchanged.  They may overlap the dynamic array, which the language allows.
         self.floats = []       # (name, offset, size in bytes, effective byte order)
